@@ -334,9 +334,11 @@ std::string op_var(std::string const &_op, line_t const &L)
     g_log.clear();
     slots_t sr;
     std::string tag;
+    event_log log;
     if (L.par[1] == 0)
     {
       opt<T> const r{with_cat<T::copyable>(L.cat(0), v, [](auto &&x) { return fcppt::variant::to_optional<T>(FWD(x)); })};
+      log = g_log;
       if (r.has_value())
         sr.add(r.get_unsafe());
       tag = opt_tag(r);
@@ -344,11 +346,11 @@ std::string op_var(std::string const &_op, line_t const &L)
     else
     {
       opt<w1<T>> const r{with_cat<T::copyable>(L.cat(0), v, [](auto &&x) { return fcppt::variant::to_optional<w1<T>>(FWD(x)); })};
+      log = g_log;
       if (r.has_value())
         sr.add(r.get_unsafe().t);
       tag = opt_tag(r);
     }
-    event_log const log{g_log};
     return finish(tag, sr.str(), {var_slots(v)}, log);
   }
   throw bad_op{};
